@@ -1,9 +1,13 @@
 import PhyVerif.Model.C18
+import PhyVerif.Model.C03
 /-!
 Model of the saved curation state (property C10), phylib/io/model.py + phylib/utils/_misc.py:
 `save_spike_clusters`, `save_metadata` → `_write_tsv_simple`, `_load_metadata` / `load_metadata` /
 `read_tsv` (error tolerant, `cluster_info` excluded), `save_spikes_subset_waveforms`, `close`,
-reload = `load_model`.  The dataset directory is a finite map from file names to contents.
+reload = `load_model`.  The dataset directory is a finite map from file names to contents; the arrays no step
+of a history writes (spike templates, spike times, the raw recording, the templates through the per-template
+channel order) are the component `fixed`; the subset store is the three files of the C03 model
+(`C03.saveSubset` / `C03.loadSubset`).
 -/
 namespace PhyVerif.C10
 open PhyVerif.C18 (Cell)
@@ -17,17 +21,29 @@ deriving Repr, DecidableEq
 /-- a metadata file name: stem and extension (`true` = `.tsv`, `false` = `.csv`) -/
 abbrev FName := String × Bool
 
-structure Disk where
+/-- the part of the dataset directory that no operation of a history writes -/
+structure Fixed (α : Type) where
+  spikeTemplates : List Nat                 -- spike_templates.npy
+  spikeSamples : List Int                   -- spike_times.npy
+  raw : List (List α)                       -- the raw recording as `model.traces` shows it (channel map applied)
+  chunks : List (Nat × Nat)                 -- `model.traces.iter_chunks()` (C16)
+  orders : List (List Int)                  -- per template: `get_template(t).channel_ids` (templates.npy & co, C05)
+  nsw : Nat                                 -- n_samples_waveforms (templates.shape[1])
+  nClosest : Nat                            -- n_closest_channels (params.py, default 12)
+deriving Repr, DecidableEq
+
+structure Disk (α : Type) where
   clusters : List Nat                       -- spike_clusters.npy
   files : List (FName × File)               -- metadata files by name; a later write replaces the file
-  subsetSaved : Bool                        -- `_phy_spikes_subset.*` present
+  subset : Option (C03.SubsetFiles α)       -- `_phy_spikes_subset.{spikes,channels,waveforms}.npy`
+  fixed : Fixed α
 deriving Repr, DecidableEq
 
 inductive Op where
   | saveClusters (sc : List Nat)
   | saveMeta (field : String) (m : List (Nat × Option Cell))      -- dict {cluster_id: value or None}
   | writeFile (name : FName) (f : File)                           -- a foreign TSV/CSV file
-  | saveSubset
+  | saveSubset (sel : List Nat) (maxN : Nat)    -- `sel`: what the random spike selector returned (C17); max_n_channels
   | close
   | reload
 deriving Repr
@@ -52,26 +68,38 @@ def cleanMeta (m : List (Nat × Option Cell)) : List (Nat × Cell) :=
 def simpleTable (render : Cell → String) (field : String) (data : List (Nat × Cell)) : File :=
   .table ["cluster_id", field] (data.map fun p => [toString p.1, render p.2])
 
-def step (render : Cell → String) (d : Disk) : Op → Disk
+variable {α : Type} [Zero α]
+
+/-- one operation; `scale` is the multiplication by `sample2unit` -/
+def step (render : Cell → String) (scale : α → α) (d : Disk α) : Op → Disk α
   | .saveClusters sc => { d with clusters := sc }
   | .saveMeta field m =>
     { d with files := putFile d.files ("cluster_" ++ field, true) (simpleTable render field (cleanMeta m)) }
   | .writeFile name f => { d with files := putFile d.files name f }
-  | .saveSubset => { d with subsetSaved := true }
+  | .saveSubset sel maxN =>
+    -- model.py:1369-1427 (raw data present): ids, channel rows and the chunk-by-chunk export replace the three files
+    { d with subset := some (C03.saveSubset scale d.fixed.raw d.fixed.chunks d.fixed.spikeSamples
+        d.fixed.spikeTemplates d.fixed.orders sel d.fixed.nsw (C03.subsetWidth maxN d.fixed.nClosest)) }
   | .close => d
   | .reload => d
 
-def run (render : Cell → String) (d : Disk) (ops : List Op) : Disk := ops.foldl (step render) d
+def run (render : Cell → String) (scale : α → α) (d : Disk α) (ops : List Op) : Disk α :=
+  ops.foldl (step render scale) d
+
+/-- `_load_spike_waveforms()` on reload: no files, or a waveform file that does not load → no store -/
+def storeView (d : Disk α) : Option (C03.Store α) := d.subset.bind C03.loadSubset
 
 /-- `load_metadata(file)`: rows with a `cluster_id`, every other non-empty cell becomes
-`out[field][cluster_id] = value` (a later row overwrites an earlier one for the same id) -/
+`out[field][cluster_id] = value` (a later row overwrites an earlier one for the same id). A row is the dict
+`{k: v for k, v in zip(header, row) if v != ''}` of `read_tsv`: for a repeated column name the LAST non-empty
+cell is the value (so `cluster_id` is looked up from the right) -/
 def loadMetadata (parse : String → Cell) (f : File) : Option (List (String × List (Cell × Cell))) :=
   match f with
   | .unreadable => none
   | .table header rows =>
     let cells := rows.map fun r => ((header.zip r).filter fun p => p.2 != "")
     some (cells.foldl (fun out row =>
-      match row.lookup "cluster_id" with
+      match row.reverse.lookup "cluster_id" with
       | none => out
       | some cid =>
         (row.filter fun p => p.1 != "cluster_id").foldl (fun out2 p =>
@@ -79,19 +107,28 @@ def loadMetadata (parse : String → Cell) (f : File) : Option (List (String × 
           let upd := (old.filter fun q => q.1 != parse cid) ++ [(parse cid, parse p.2)]
           (out2.filter fun q => q.1 != p.1) ++ [(p.1, upd)]) out) [])
 
-/-- `_load_metadata()`: all `*.csv` files first, then all `*.tsv` files (so that the TSV files phy
-writes win over legacy CSV files), except `cluster_info`; unreadable ones skipped;
-`metadata[field] = data` per file (a later file replaces the whole field) -/
+/-- the loader's treatment of one visited file: `cluster_info` skipped, an unreadable file skipped,
+`metadata[field] = data` for every field of the file (replaces the whole field) -/
+def viewStep (parse : String → Cell) (acc : List (String × List (Cell × Cell))) (p : FName × File) :
+    List (String × List (Cell × Cell)) :=
+  if p.1.1 == "cluster_info" then acc else
+  match loadMetadata parse p.2 with
+  | none => acc
+  | some fields => fields.foldl (fun a fd => (a.filter fun q => q.1 != fd.1) ++ [fd]) acc
+
+/-- `_load_metadata()` given the list of files in the order the loader visits them -/
+def metadataViewIn (parse : String → Cell) (visit : List (FName × File)) : List (String × List (Cell × Cell)) :=
+  visit.foldl (viewStep parse) []
+
+/-- `_load_metadata()`: all `*.csv` files first, then all `*.tsv` files (`files = list(glob('*.csv'));
+files.extend(glob('*.tsv'))`, so that the TSV files phy writes win over legacy CSV files), each group in the order
+of the directory listing `files` (which `glob` does not specify) -/
 def metadataView (parse : String → Cell) (files : List (FName × File)) :
     List (String × List (Cell × Cell)) :=
-  ((files.filter fun p => !p.1.2) ++ (files.filter fun p => p.1.2)).foldl (fun acc p =>
-    if p.1.1 == "cluster_info" then acc else
-    match loadMetadata parse p.2 with
-    | none => acc
-    | some fields => fields.foldl (fun a fd => (a.filter fun q => q.1 != fd.1) ++ [fd]) acc) []
+  metadataViewIn parse ((files.filter fun p => !p.1.2) ++ (files.filter fun p => p.1.2))
 
 /-- what a freshly loaded model shows -/
-def view (parse : String → Cell) (d : Disk) : List Nat × List (String × List (Cell × Cell)) :=
+def view (parse : String → Cell) (d : Disk α) : List Nat × List (String × List (Cell × Cell)) :=
   (d.clusters, metadataView parse d.files)
 
 end PhyVerif.C10
